@@ -152,14 +152,22 @@ def parser_vectors(ctx):
 
 
 def parser_replay(ctx, vectors, tag="a"):
-    vin, vout = ctx.path("c15_parse_in_%s.ndjson" % tag), ctx.path("c15_parse_out_%s.ndjson" % tag)
-    vlib.write_ndjson(vin, vectors)
-    rc, out = go(ctx, "^TestZZVerifC15ParseReplay$", {"VERIF_IN": vin, "VERIF_OUT": vout})
-    rows = vlib.read_ndjson(vout)
-    summ = [r for r in rows if r.get("kind") == "summary"]
-    if rc != 0 or not summ:
-        raise vlib.Inconclusive("C15 parser replay did not complete:\n" + out[-3000:])
-    return rows, summ[0]
+    n = max(1, min(SHARDS, len(vectors) // 2000))
+    envs = []
+    for k in range(n):
+        vin, vout = ctx.path("c15_parse_in_%s_%d.ndjson" % (tag, k)), ctx.path("c15_parse_out_%s_%d.ndjson" % (tag, k))
+        vlib.write_ndjson(vin, vectors[k::n])
+        envs.append({"VERIF_IN": vin, "VERIF_OUT": vout})
+    rows, summ = [], {"n": 0, "bad": 0, "nontrivial": 0}
+    for env, (rc, out) in zip(envs, go_sharded(ctx, "^TestZZVerifC15ParseReplay$", envs)):
+        part = vlib.read_ndjson(env["VERIF_OUT"])
+        ss = [r for r in part if r.get("kind") == "summary"]
+        if rc != 0 or not ss:
+            raise vlib.Inconclusive("C15 parser replay did not complete:\n" + out[-3000:])
+        rows += part
+        for k in summ:
+            summ[k] += ss[0][k]
+    return rows, summ
 
 
 def classify_parser(rec):
